@@ -68,6 +68,10 @@ var changeDate = time.Date(2024, time.August, 2, 0, 0, 0, 0, time.UTC)
 
 var allShapes = []string{"c3-standard-4", "c3-standard-8", "c3-standard-22", "c3-standard-44", "c3-standard-88", "c3-standard-176"}
 
+// faultKey: the pipeline wrote an endorsement that does not verify while a call on its authority or
+// signer failed (it went on with the zero value instead of refusing).
+const faultKey = "C03/unverifiable-endorsement-written-although-an-authority-or-signer-call-failed"
+
 var pssOpts = &rsa.PSSOptions{SaltLength: rsa.PSSSaltLengthEqualsHash, Hash: crypto.SHA256}
 
 // ---------------------------------------------------------------------------------------------
@@ -103,6 +107,7 @@ type action struct {
 	Collide    bool     `json:"collide,omitempty"`     // rotate: the override repeats an earlier serial
 	Overwrite  bool     `json:"overwrite,omitempty"`   // rotate: run with --overwrite (output.Options.Overwrite)
 	KeepGoing  bool     `json:"keep_going,omitempty"`  // rotate: run with --keep_going (output.Options.KeepGoing)
+	Fault      *fault   `json:"fault,omitempty"`       // endorse: one call on the authority / signer fails while the command runs (c03_race_test.go)
 	Race       *race    `json:"race,omitempty"`        // endorse: a key rotation takes effect while the command runs (c03_race_test.go)
 	TimeKind   string   `json:"time_kind,omitempty"`   // rotate: where the timestamp lies relative to the root's validity
 	Time       string   `json:"time,omitempty"`
@@ -148,6 +153,9 @@ func (a action) String() string {
 		}
 		if a.Race != nil {
 			out += " " + a.Race.String()
+		}
+		if a.Fault != nil {
+			out += " " + a.Fault.String()
 		}
 		return fmt.Sprintf("endorse(%s, %s, clspec=%d commit=%dB, t=%s, %s)", a.ImageNote, tech, r.ClSpec, len(r.Commit)/2, r.Time, out)
 	}
@@ -587,6 +595,7 @@ type fileRec struct {
 	ImageSHA384 []byte
 	Copy        bool // a further file of the same command (second version-control root, SVSM snapshot)
 	Raced       bool // a key rotation took effect while the command that wrote it ran
+	Faulted     bool // a call on the authority / signer failed while the command that wrote it ran
 	cliDone     bool // the gcetcbendorsement inspect commands were run on it
 }
 
@@ -708,7 +717,11 @@ func (m *model) window(t ev.TB, f *fileRec) (lo, hi time.Time, cert *x509.Certif
 	}
 	cert, err = x509.ParseCertificate(golden.GetCert())
 	if err != nil {
-		m.report(t, "C03/embedded-certificate-does-not-parse", "step %d (%s): %v", f.Step, filepath.Base(f.Path), err)
+		key := "C03/embedded-certificate-does-not-parse"
+		if f.Faulted {
+			key = faultKey
+		}
+		m.report(t, key, "step %d (%s): the embedded signing-key certificate (%d bytes) does not parse: %v", f.Step, filepath.Base(f.Path), len(golden.GetCert()), err)
 		return
 	}
 	lo, hi = cert.NotBefore, cert.NotAfter
@@ -770,7 +783,9 @@ func (m *model) judge(t ev.TB, f *fileRec, now time.Time, why string) {
 	}
 	if verr != nil {
 		key := "C03/verifier-rejects-pipeline-endorsement"
-		if f.Raced {
+		if f.Faulted {
+			key = faultKey
+		} else if f.Raced {
 			key = "C03/verifier-rejects-endorsement-written-while-a-rotation-took-effect"
 		} else if rotAfter > 0 || f.RotBefore > 0 {
 			key = "C03/verifier-rejects-pipeline-endorsement-around-rotation"
@@ -973,6 +988,9 @@ func (m *model) judge(t ev.TB, f *fileRec, now time.Time, why string) {
 	if f.Raced {
 		ev.Class("verify", "file written while a key rotation took effect")
 	}
+	if f.Faulted {
+		ev.Class("verify", "file written although a call on the authority / signer failed")
+	}
 	if lo.Equal(m.root.NotBefore) && cert.NotBefore.Before(m.root.NotBefore) {
 		ev.Class("verify", "window starts at the root's NotBefore (certificate dated before the root)")
 	}
@@ -1157,6 +1175,9 @@ func (m *model) unusual(a action) []string {
 		if a.Race != nil && a.Race.fired {
 			why = append(why, "a key rotation took effect while the command ran")
 		}
+		if a.Fault != nil && a.Fault.hit {
+			why = append(why, "a call of the command on its authority or signer failed (injected)")
+		}
 	}
 	if m.refused > 0 {
 		why = append(why, "an earlier command of this history was refused")
@@ -1200,7 +1221,9 @@ func (m *model) step(t ev.TB, a action) bool {
 		if why := m.unusual(a); len(why) > 0 {
 			m.inconclusive("history", what+" refused ("+why[0]+")", "%s = %v (%s)", a, err, strings.Join(why, "; "))
 			m.hist[len(m.hist)-1] += "=refused"
-			m.refused++
+			if !(a.Fault != nil && a.Fault.hit) { // an injected failure of one call leaves every component's state as it was
+				m.refused++
+			}
 			return a.Kind != "bootstrap"
 		}
 		m.report(t, "C03/history-command-failed", "%s failed although it is a plain use of the tool: %v", what, err)
@@ -1281,7 +1304,7 @@ func (m *model) step(t ev.TB, a action) bool {
 		before := len(w.signLog)
 		rotBefore := m.rotations
 		var rr *raceRun
-		if a.Race != nil {
+		if a.Race != nil || a.Fault != nil {
 			rr = m.armRace(a)
 		}
 		paths, err, pan := w.endorse(a)
@@ -1289,6 +1312,7 @@ func (m *model) step(t ev.TB, a action) bool {
 		if rr != nil {
 			raced = m.settleRace(t, a, rr, paths, err != nil || pan != nil)
 		}
+		faulted := a.Fault != nil && a.Fault.hit
 		var digests [][]byte
 		for _, r := range w.signLog[before:] {
 			digests = append(digests, r.Digest)
@@ -1303,25 +1327,30 @@ func (m *model) step(t ev.TB, a action) bool {
 			}
 		}
 		if err != nil || pan != nil {
-			if rr != nil {
+			if a.Race != nil {
 				m.recordRace(a, rr, paths, true, raced)
 				oldAfterRace()
 			}
-			if rr != nil && rr.fired && pan == nil {
+			written := 0
+			if rr != nil && (rr.fired || faulted) && pan == nil {
 				// whatever got written must verify, also when the command ended with an error
 				for i, path := range paths {
 					if now, rerr := os.ReadFile(path); rerr == nil && !bytes.Equal(now, rr.prior[path]) {
-						ev.Class("race", "a file was written although the raced command reported an error")
-						f := &fileRec{Path: path, Req: a.Req, Step: n, RotBefore: rotBefore, Digests: digests, ImageSHA384: sum[:], Copy: i > 0, Raced: true}
+						written++
+						ev.Class("verify", "a file was written although the raced / faulted command reported an error")
+						f := &fileRec{Path: path, Req: a.Req, Step: n, RotBefore: rotBefore, Digests: digests, ImageSHA384: sum[:], Copy: i > 0, Raced: rr.fired, Faulted: faulted}
 						m.files = append(m.dropFile(path), f)
 						m.judgeAt(t, f, "fresh", a.Nanos, 0, a.Frac, 1)
 					}
 				}
 			}
+			if a.Fault != nil {
+				m.recordFault(a, rr, true, written)
+			}
 			return fail("endorse", err, pan)
 		}
 		for i, path := range paths {
-			f := &fileRec{Path: path, Req: a.Req, Step: n, RotBefore: rotBefore, Digests: digests, ImageSHA384: sum[:], Copy: i > 0, Raced: rr != nil && rr.fired}
+			f := &fileRec{Path: path, Req: a.Req, Step: n, RotBefore: rotBefore, Digests: digests, ImageSHA384: sum[:], Copy: i > 0, Raced: rr != nil && rr.fired, Faulted: faulted}
 			m.files = append(m.dropFile(path), f) // an overwritten file is replaced in the model
 			if f.Copy {
 				m.judgeAt(t, f, "fresh", 0, a.Frac)
@@ -1329,9 +1358,12 @@ func (m *model) step(t ev.TB, a action) bool {
 				m.judgeAt(t, f, "fresh", a.Nanos, 0, a.Frac, 1)
 			}
 		}
-		if rr != nil {
+		if a.Race != nil {
 			m.recordRace(a, rr, paths, false, raced)
 			oldAfterRace()
+		}
+		if a.Fault != nil {
+			m.recordFault(a, rr, false, len(paths))
 		}
 	case "verifyOld":
 		if len(m.files) == 0 {
@@ -1530,7 +1562,7 @@ var (
 	t0Hi = time.Date(2030, 1, 1, 0, 0, 0, 0, time.UTC)
 )
 
-const verifyRule = "rapid state machine over a certificate authority. World: authority drawn from {memca+memkm, gcsca over storage/local in a temp dir + localkm with keys on disk, gcsca over storage/local + keys/gcpkms (Manager and Signer, so rotate.GoogleCertificateTemplate makes the rotated certificates) over testing/testkms.FakeKmsServer}; driver drawn from {library entry points rotate.Bootstrap / rotate.Key / endorse.VirtualFirmware with a fresh context and fresh component instances per command, the same with ONE set of instances for the whole history (long-lived process), cmd.MakeApp with a fresh command tree per command (memca and localkm worlds)}; keys come from the real key generators fed with pooled primes (all keys of a history differ). History = bootstrap(common names, root/signing serials, t0 in 2015..2030 with fractional seconds and zone offsets) followed by <= 7 actions from rotate(common name, serial override / default next / a serial that repeats an earlier certificate's, the command-wide flags --overwrite (output.Options.Overwrite; drawn for 2 in 3 of the repeated-serial rotations - it is what lets the storage-backed authority REWRITE the certificate object of that name in place, so that a long-lived authority object must not serve what it read from that object before - and for 1 in 6 of the others) and --keep_going (1 in 6; dropped, and counted, on a repeated-name rotation of a storage-backed authority without --overwrite: see the assumptions), timestamp {inside the root's validity with the certificate nested in it, certificate outliving the root, exactly the root's NotAfter, BEFORE the root's NotBefore but overlapping}), endorse(image, request; about one in four RACED by a key rotation, see 'race'), verifyOld(i, t). Requests: SNP / TDX / both, VMSA count 0 (all 15) / 1 / a supported count / any 2..300, Milan or Genoa (never the zero product), optional family and image ids, optional 48-byte SVSM measurement, machine shapes any subset of the six supported (order varied), early accept, provenance ALWAYS present (ClSpec, commit or both; commit 20 bytes, through the library also 32 or 1..64 bytes), document timestamp before / after / at / 1 ns / 0.5 s / 1 s around 2 Aug 2024 or inside the current signing certificate's validity, output {manifest method: candidate names and output directories (unique, default basename, or --overwrite of an earlier file); snapshot method (--snapshot_dir: <image>.signed, with an SVSM image also svsm.igvm.signed); library only: two version-control roots in endorse.Context.VCSs}; images from fwgen (valid, 1-16 pages, SEV+TDX metadata) and, for about one endorsement in forty, the 2 MiB fakeovmf.CleanExample (which the plain TestRotationSmoke histories also endorse in every world). A recording signer wrapper notes every digest handed to the signer. Oracle, for every file f the command wrote and a time t in [max NotBefore, min NotAfter] of (root, embedded certificate) - t passed in a drawn zone, the pool holding the authority's root alone or next to an unrelated root: verify.Endorsement(file bytes, pool, Now=t) == nil and the `gcetcbendorsement verify FILE --root_cert` command agrees; EndorsementProto with ExpectedUefiSha384 = SHA-384(image) accepts as well; pki.RefAuthentic (independent chain + window + RSA-PSS) on the same bytes; InspectPayload / InspectSignature / InspectMask(cert) with BytesRaw AND the commands `gcetcbendorsement inspect payload|signature|mask --path=cert FILE` with their default --bytesform writing to a non-terminal (the documented `openssl ... <(gcetcbendorsement inspect ...)` flow; once per file) are byte-equal to the stored payload, signature and embedded certificate, and RSA-PSS(SHA-256, salt 32) verifies over exactly those three outputs; sha256(stored payload) is one of the digests the signer was handed while the command ran; the document timestamp lies on the same side of 2 Aug 2024 as the request's (differences below one second: timestamp resolution, counted only); every listed SNP (count -> measurement) accepted by verify.SNP with that count (count 1: accepted without a count; with count 1 verify.SNP compares with the SVSM value by design - noted, not flagged), the SVSM value accepted with count 1, every TDX row inside TdxPolicy(row.ram).AnyMrTd. Evaluated: both end points and a drawn interior time right after every endorse; every file so far at both end points and a drawn interior time after every rotation; verifyOld at a drawn t; a window of a single instant once. A command that goes beyond the plain use of the tools (see model.unusual: free-form or changed common name, serial beyond 63 bits or not above the current one, certificate name already taken, rotation timestamp outside the nested range, VMSA count that is not offered, commit that is not 20 bytes, document dated outside the signing certificate's validity, two VCS roots, SVSM snapshot, a key rotation that took effect while the command ran, anything after a refused command) may be refused: counted as inconclusive, the history goes on; the refusal of a plain command and every panic are reported. non-trivial = >= 1 rotation before the endorsement or between its creation and the verification; distinct = (world/driver, rotations before/after capped at 2, request shape, time class, trigger, copy)"
+const verifyRule = "rapid state machine over a certificate authority. World: authority drawn from {memca+memkm, gcsca over storage/local in a temp dir + localkm with keys on disk, gcsca over storage/local + keys/gcpkms (Manager and Signer, so rotate.GoogleCertificateTemplate makes the rotated certificates) over testing/testkms.FakeKmsServer}; driver drawn from {library entry points rotate.Bootstrap / rotate.Key / endorse.VirtualFirmware with a fresh context and fresh component instances per command, the same with ONE set of instances for the whole history (long-lived process), cmd.MakeApp with a fresh command tree per command (memca and localkm worlds)}; keys come from the real key generators fed with pooled primes (all keys of a history differ). History = bootstrap(common names, root/signing serials, t0 in 2015..2030 with fractional seconds and zone offsets) followed by <= 7 actions from rotate(common name, serial override / default next / a serial that repeats an earlier certificate's, the command-wide flags --overwrite (output.Options.Overwrite; drawn for 2 in 3 of the repeated-serial rotations - it is what lets the storage-backed authority REWRITE the certificate object of that name in place, so that a long-lived authority object must not serve what it read from that object before - and for 1 in 6 of the others) and --keep_going (1 in 6; dropped, and counted, on a repeated-name rotation of a storage-backed authority without --overwrite: see the assumptions), timestamp {inside the root's validity with the certificate nested in it, certificate outliving the root, exactly the root's NotAfter, BEFORE the root's NotBefore but overlapping}), endorse(image, request; about one in four RACED by a key rotation, see 'race'; about one in six with ONE failing call on its authority / signer, see 'fault'), verifyOld(i, t). Requests: SNP / TDX / both, VMSA count 0 (all 15) / 1 / a supported count / any 2..300, Milan or Genoa (never the zero product), optional family and image ids, optional 48-byte SVSM measurement, machine shapes any subset of the six supported (order varied), early accept, provenance ALWAYS present (ClSpec, commit or both; commit 20 bytes, through the library also 32 or 1..64 bytes), document timestamp before / after / at / 1 ns / 0.5 s / 1 s around 2 Aug 2024 or inside the current signing certificate's validity, output {manifest method: candidate names and output directories (unique, default basename, or --overwrite of an earlier file); snapshot method (--snapshot_dir: <image>.signed, with an SVSM image also svsm.igvm.signed); library only: two version-control roots in endorse.Context.VCSs}; images from fwgen (valid, 1-16 pages, SEV+TDX metadata) and, for about one endorsement in forty, the 2 MiB fakeovmf.CleanExample (which the plain TestRotationSmoke histories also endorse in every world). A recording signer wrapper notes every digest handed to the signer. Oracle, for every file f the command wrote and a time t in [max NotBefore, min NotAfter] of (root, embedded certificate) - t passed in a drawn zone, the pool holding the authority's root alone or next to an unrelated root: verify.Endorsement(file bytes, pool, Now=t) == nil and the `gcetcbendorsement verify FILE --root_cert` command agrees; EndorsementProto with ExpectedUefiSha384 = SHA-384(image) accepts as well; pki.RefAuthentic (independent chain + window + RSA-PSS) on the same bytes; InspectPayload / InspectSignature / InspectMask(cert) with BytesRaw AND the commands `gcetcbendorsement inspect payload|signature|mask --path=cert FILE` with their default --bytesform writing to a non-terminal (the documented `openssl ... <(gcetcbendorsement inspect ...)` flow; once per file) are byte-equal to the stored payload, signature and embedded certificate, and RSA-PSS(SHA-256, salt 32) verifies over exactly those three outputs; sha256(stored payload) is one of the digests the signer was handed while the command ran; the document timestamp lies on the same side of 2 Aug 2024 as the request's (differences below one second: timestamp resolution, counted only); every listed SNP (count -> measurement) accepted by verify.SNP with that count (count 1: accepted without a count; with count 1 verify.SNP compares with the SVSM value by design - noted, not flagged), the SVSM value accepted with count 1, every TDX row inside TdxPolicy(row.ram).AnyMrTd. Evaluated: both end points and a drawn interior time right after every endorse; every file so far at both end points and a drawn interior time after every rotation; verifyOld at a drawn t; a window of a single instant once. A command that goes beyond the plain use of the tools (see model.unusual: free-form or changed common name, serial beyond 63 bits or not above the current one, certificate name already taken, rotation timestamp outside the nested range, VMSA count that is not offered, commit that is not 20 bytes, document dated outside the signing certificate's validity, two VCS roots, SVSM snapshot, a key rotation that took effect while the command ran, an injected failure of one of the command's calls on its authority or signer, anything after a refused command) may be refused: counted as inconclusive, the history goes on; the refusal of a plain command and every panic are reported. non-trivial = >= 1 rotation before the endorsement or between its creation and the verification; distinct = (world/driver, rotations before/after capped at 2, request shape, time class, trigger, copy)"
 
 func genFracNanos(t *rapid.T) (float64, int) {
 	fr := rapid.Float64Range(0.0001, 0.9999).Draw(t, "frac")
@@ -1562,6 +1594,7 @@ func genRotTime(t *rapid.T, root *x509.Certificate) (string, string) {
 func TestHistories(t *testing.T) {
 	ev.Rule("verify", verifyRule)
 	ev.Rule("race", raceRule)
+	ev.Rule("fault", faultRule)
 	ev.Rule("history", "one record per history of the state machine described under 'verify': class = world/driver, plus counters for rotation timestamp kinds, rotations run with --overwrite / --keep_going, colliding-serial rotations per world (performed, performed with --overwrite or --keep_going per world/driver, refused) and refused (inconclusive) commands; non-trivial = it contains a performed rotation and an endorsement")
 	bigImage = fakeovmf.CleanExample(t, 2*1024*1024)
 	checks(ev.Scale(80, 200))
@@ -1648,6 +1681,9 @@ func TestHistories(t *testing.T) {
 				a.Frac, a.Nanos = genFracNanos(t)
 				if rapid.IntRange(0, 3).Draw(t, "raced") == 0 {
 					a.Race = genRace(t, m, &lastCN)
+				}
+				if rapid.IntRange(0, 5).Draw(t, "faulted") == 0 {
+					a.Fault = genFault(t)
 				}
 				nEnd++
 				endorsed = true
